@@ -4443,6 +4443,9 @@ class ResponseFuture(object):
 
     _warned_timeout = False
 
+    # incremented for every page fetch, to tell late answers of an earlier fetch apart
+    _fetch_generation = 0
+
     def __init__(self, session, message, query, timeout, metrics=None, prepared_statement=None,
                  retry_policy=RetryPolicy(), row_factory=None, load_balancer=None, start_time=None,
                  speculative_execution_plan=None, continuous_paging_state=None, host=None):
@@ -4620,7 +4623,7 @@ class ResponseFuture(object):
             result_meta = self.prepared_statement.result_metadata if self.prepared_statement else []
 
             if cb is None:
-                cb = partial(self._set_result, host, connection, pool)
+                cb = partial(self._set_result_of_fetch, self._fetch_generation, host, connection, pool)
 
             self.request_encoded_size = connection.send_msg(message, request_id, cb=cb,
                                                             encoder=self._protocol_handler.encode_message,
@@ -4718,6 +4721,7 @@ class ResponseFuture(object):
         self._timer = None
         self._connection = None
         self._req_id = None
+        self._fetch_generation += 1
         self._start_timer()
         self.send_request()
 
@@ -4733,6 +4737,16 @@ class ResponseFuture(object):
         # free again and may already belong to another request: _on_timeout must not touch it.
         if connection is self._connection and getattr(response, 'stream_id', self._req_id) == self._req_id:
             self._req_id = None
+
+    def _set_result_of_fetch(self, fetch_generation, host, connection, pool, response):
+        if fetch_generation != self._fetch_generation:
+            # a late answer to an attempt (e.g. a speculative execution) of an earlier page
+            # fetch: it must not be taken for the page being fetched now, only release the stream
+            self._attempt_answered(connection, response)
+            if pool:
+                pool.return_connection(connection)
+            return
+        self._set_result(host, connection, pool, response)
 
     def _set_result(self, host, connection, pool, response):
         try:
@@ -4772,6 +4786,9 @@ class ResponseFuture(object):
                         self.session.cluster.control_connection,
                         self, connection, **response.schema_change_event)
                 elif response.kind == RESULT_KIND_ROWS:
+                    if self._final_result is not _NOT_SET or self._final_exception is not None:
+                        # this fetch already completed (another attempt answered first)
+                        return
                     self._paging_state = response.paging_state
                     self._col_names = response.column_names
                     self._col_types = response.column_types
